@@ -105,6 +105,22 @@ def dynamic_part(run, tier, scr):
                               {"what": "a table reachable from a type descriptor (descriptor, tags, member table, specifics and their maps, constraint records) lies outside "
                                        "the image the detector protects: a store into it would not be seen, the set D of descr_unchanged does not cover it",
                                "parts": ro["parts"], "outside": ro["parts_outside"][:20]}, no_input=True)
+            # pointer closure of the image (hypothesis `closed` of Conc/DescrClosure.v): no word of it holds the address of writable memory outside it
+            info["ro"]["pointer_closure"] = ro["closure"]
+            if ro["summary"] and not (ro["closure"].get("start") and ro["closure"].get("end")):
+                run.violation("ro-image:closure-scan(%s)" % tag, {"what": "the pointer-closure scan of the image did not run", "tail": ro["raw_tail"]}, no_input=True)
+            for sym in sorted(set(e["symbol"] for e in ro["closure_bad"])):
+                evs = [e for e in ro["closure_bad"] if e["symbol"] == sym]
+                fid = next((i for (rx, i) in known if rx.search(sym)), None)
+                if fid:
+                    run.known_finding(fid, sym)
+                    continue
+                at_start = any(e["when"] == "start" for e in evs)
+                run.violation("ro-image:closure(%s:%s)" % (tag, sym),
+                              {"what": "a word of the shared image holds the address of writable memory outside the image %s: memory that is not part of the type tables is "
+                                       "reachable (hence shared between threads) through a descriptor" % ("already at load time" if at_start else "after the operation battery (not before it)"),
+                               "hypothesis": "closed ptr D (coq/Conc/DescrClosure.v, C19_closure_invariant / C19_no_private_reachable) is false of this build",
+                               "symbol": sym, "words": evs[:8], "asn1c_options": v["opts"]}, no_input=at_start)
             for tn, (nv, ni) in ro["values"].items():
                 a = values.setdefault(tn, [0, 0])
                 a[0] += nv
